@@ -10,7 +10,7 @@
 From Coq Require Import Reals List ZArith Ring.
 From Coquelicot Require Import Coquelicot.
 From AG Require Import RealPrelude ScalarRules VSpace VSpaceProof Broadcast Complex
-     Toposort Backward BackwardProof.
+     Toposort Backward BackwardProof Select.
 From AGGen Require Import GenRules.
 Local Open Scope R_scope.
 
@@ -50,3 +50,13 @@ Theorem C04_complex_pairing :
       = rpair K kadd kmul (cconj K kopp (vjp_conv K kadd kmul kopp j11 j12 j21 j22 g)) v.
 Proof. exact complex_adjoint. Qed.
 Print Assumptions C04_complex_pairing.
+
+(* selection primitives: <g, J v> = <J^T g, v> for every selection list *)
+Theorem C04_selection_pairing :
+  forall (K : Type) (k0 k1 : K) (kadd kmul ksub : K -> K -> K) (kopp : K -> K),
+    ring_theory k0 k1 kadd kmul ksub kopp eq ->
+    forall n sel g v,
+      Forall (Select.in_bounds K n) sel -> length g = length sel -> length v = n ->
+      dot K k0 kadd kmul (Select.sscatter K k0 kadd kmul n sel g) v = dot K k0 kadd kmul g (Select.sgather K k0 kmul sel v).
+Proof. intros K k0 k1 kadd kmul ksub kopp R n sel g v H1 H2 H3. exact (proj1 (Select.selection_rule_adjoint K k0 k1 kadd kmul ksub kopp R n sel g v H1 H2 H3)). Qed.
+Print Assumptions C04_selection_pairing.
